@@ -126,6 +126,16 @@ func genC02(c *Ctx) {
 			}
 		}
 	}
+	// (a3) the probe provider as the first inner stream of Concat(stream of streams) whose outer stream fails next: every
+	//      asynchronous reader on top of it
+	for _, op := range []string{"cmap", "ccons", "buf", "nest", "pipe"} {
+		for n := 0; n <= 3; n++ {
+			emit(true, fmt.Sprintf("%s c=%d n=%d size=3 sync=1 mg=0 outerr=1 script=-", op, 1+n%2, n))
+			if op != "pipe" && op != "ccons" {
+				emit(true, fmt.Sprintf("%s c=2 n=%d size=3 sync=0 mg=0 outerr=1 yield=1 script=-", op, n+2))
+			}
+		}
+	}
 	// (b) gated callbacks, every wrapper, scripted in quiescent states (seeded random scripts)
 	nr := c.Pick(500, 6000)
 	ops := []string{"cmap", "cmap", "ccons", "buf", "nest", "pipe"}
